@@ -122,6 +122,77 @@ def classify(g, c):
     return cert_tag, cert_content, cert_out, z3.BoolVal(False)
 
 
+def run_eol(task):
+    """A removed line re-added with identical text (git: `\\ No newline at end of file` edits, with or
+    without the marker line between them), anywhere relative to the block - its end-tag line included:
+    nothing changed in any line, so the block is neither selected nor content-modified.
+    diff -> line_changes -> the parse_file filter closure, all real MIR; line_diff of two identical
+    texts is the empty list (similar yields one Equal op)."""
+    with_marker, extra_ctx = task
+    from mirsym.extmodels import mk_line, mk_hunk, mk_patched_file
+    prog = driver.load_program()
+    stats = PathStats()
+    f_lc = prog.find_fn('line_changes')
+    clo = prog.fns['parse_file::{closure#0}'][0]
+    out = dict(violations=[], samples=[], obligations=0, cover={}, panic_paths=0)
+    holder = {}
+    roles = set()
+
+    def run_path(I):
+        g = build(I, prog, ())
+        L = I.fresh_int('L', 1, NUM_MAX)
+        holder.update(g=g, L=L)
+        lines = []
+        if extra_ctx:
+            lines.append(mk_line(I, b' ', L - 1, L - 1))
+        lines.append(mk_line(I, b'-', L, None))
+        if with_marker:
+            lines.append(mk_line(I, b'\\', None, None))
+        lines.append(mk_line(I, b'+', None, L))
+        start = L - 1 if extra_ctx else L
+        n = 2 if extra_ctx else 1
+        pf = mk_patched_file(I, b'a/f.js', b'b/f.js', [mk_hunk(I, start, n, start, n, lines)])
+        I.stubs['line_diff'] = lambda I2, a, ci, dt: VecVal(())
+        lcs = I.call_fn(f_lc, [Ref(Cell(pf), ())])
+        holder['lcs'] = lcs
+        clo.ensure_parsed()
+        caps = closure_captures(prog, clo, dict(
+            line_changes=Ref(Cell(lcs), ()),
+            blocks_filter=Enum('BlocksFilter', prog.variant_index('BlocksFilter', 'ModifiedOnly'), 'ModifiedOnly')))
+        env = Ref(Cell(Struct('closure', caps)), ())
+        return I.call_fn(clo, [env, g.block])
+
+    for I, pk, val in explore(prog, models.M, run_path, stats=stats, max_paths=5000):
+        g, L = holder['g'], holder['L']
+        out['obligations'] += 1
+        if pk == 'panic':
+            out['panic_paths'] += 1
+            role = 'panic'
+            cond = z3.BoolVal(True)
+            summary = 'panic: %s' % val.msg[:100]
+        elif val.v == 1:
+            role = 'unchanged-line-selects-block'
+            cond = z3.BoolVal(True)
+            bwc = val.f[0]
+            summary = 'a line removed and re-added unchanged selects the block (is_content_modified=%s)' % get_field(prog, bwc, 'BlockWithContext', 'is_content_modified')
+        else:
+            out['cover']['eol-only'] = out['cover'].get('eol-only', 0) + 1
+            continue
+        if role in roles:
+            continue
+        # prefer the end-tag line: that is what adding the final newline of a file touches
+        m = small_model(I, z3.And(cond, L == g.Ea), [L] + g.small) or small_model(I, cond, [L] + g.small)
+        if m is None:
+            continue
+        roles.add(role)
+        vals = dict((k, mval(m, getattr(g, k))) for k in ('Tl', 'tc', 'Te', 'te', 'Sb', 'cs', 'Ea', 'ce'))
+        vals['changes'] = []
+        out['violations'].append(dict(role=role, summary=summary, shape=[0], values=vals,
+                                      eol=dict(line=mval(m, L), marker=bool(with_marker), ctx=bool(extra_ctx))))
+    out.update(Agg(PROP, 'x').stats_from(stats))
+    return out
+
+
 def run_shape(task):
     shape, want_samples = task
     prog = driver.load_program()
@@ -340,6 +411,7 @@ EXPECT = {
     'scan-mode-drops-block': ('selected', True),
     'content-edit-not-flagged': ('is_content_modified', True),
     'non-content-edit-flagged': ('is_content_modified', False),
+    'unchanged-line-selects-block': ('selected', False),
 }
 
 
@@ -353,6 +425,21 @@ def confirm(binary, v, idx):
     if mat is None:
         v['summary'] += ' (could not materialise)'
         return v
+    if v.get('eol'):
+        # the diff of an end-of-line-only edit: the line removed and re-added with the same text
+        e = v['eol']
+        lines = mat['content'].split('\n')
+        if e['line'] > len(lines) - 1:
+            return v
+        text = lines[e['line'] - 1]
+        d_ = ['diff --git a/f.js b/f.js', 'index 1111111..2222222 100644', '--- a/f.js', '+++ b/f.js']
+        if e['ctx'] and e['line'] > 1:
+            d_ += ['@@ -%d,2 +%d,2 @@' % (e['line'] - 1, e['line'] - 1), ' ' + lines[e['line'] - 2]]
+        else:
+            d_ += ['@@ -%d +%d @@' % (e['line'], e['line'])]
+        d_ += ['-' + text] + (['\\ No newline at end of file'] if e['marker'] else []) + ['+' + text]
+        mat['diff'] = '\n'.join(d_) + '\n'
+        v['mode'] = 'ModifiedOnly'
     d = scratch_dir('c02')
     try:
         args = ('list',) if v['mode'] == 'ModifiedOnly' else ('list', 'f.js')
@@ -418,6 +505,7 @@ def main(tier):
     rnd = random.Random(seed())
     rnd.shuffle(shapes)
     results = pmap(run_shape, [(s, True) for s in shapes])
+    results += pmap(run_eol, [(m, c) for m in (True, False) for c in (True, False)])
     for r in results:
         agg.add(r)
     from . import mainwire
@@ -472,7 +560,7 @@ def main(tier):
             'non-interference of the validators w.r.t. is_content_modified is decided in the C06-C09 harnesses, glob handling in C15',
         ],
         stubs=[],
-        must_cover=['main', 'mode:ModifiedOnly', 'mode:All'],
+        must_cover=['main', 'mode:ModifiedOnly', 'mode:All', 'eol-only'],
         explanation='per change-list shape, all feasible MIR paths of the parse_file filter closure; classification formulas (inside tag / inside content / outside) asked of Z3 against the closure result')
 
 
